@@ -141,6 +141,13 @@ rendered = Measure('rendered', '', _rendered_step, Str)
 well_formed = Measure('well_formed', True, _well_formed_step, Bool)
 separated = Measure('separated', (True, False), _separated_step, FixedList(Bool, Bool, as_tuple=True))
 
+def single_fragment_link(frags):
+    """when there is exactly one fragment the measures are those of that fragment (links the measures of a
+    list that comes out of a contract to its element)"""
+    return len(frags) != 1 or (rendered(frags) == render(frags[0])
+                               and well_formed(frags) == _well_formed_step(True, frags[0]))
+
+
 M.contract(P_SYM + ':_extract_fragment', params=dict(s=Str),
            requires=lambda s: s != '',
            returns=Union(FixedList(Str, FixedList(FRAG), as_tuple=True),
@@ -159,11 +166,311 @@ M.contract(P_SYM + ':split', params=dict(s=Str), old=lambda s: s, returns=FRAGME
                'conservation': lambda s, result: rendered(result) == s,
                'well-formed': lambda result: well_formed(result),
                'no-adjacent-constants': lambda result: separated(result)[0],
+               'single-fragment': lambda result: single_fragment_link(result),
            },
            raises_only=())
 M.loop(P_SYM + ':split', 0,
        invariant=lambda s, ret_val, old:
        rendered(ret_val) + s == old and well_formed(ret_val) and separated(ret_val)[0]
-       and ((not separated(ret_val)[1]) or s == ''),
+       and ((not separated(ret_val)[1]) or s == '') and single_fragment_link(ret_val),
        modifies=dict(s=Str, fragments='local', ret_val=FRAGMENTS),
        decreases=lambda s: len(s))
+
+
+# ------------------------------------------------------------------------------ tokens (util/parse/token.py)
+
+from exactly_lib.util.parse.token import Token, TokenType, QuoteType  # noqa: E402
+
+P_TOK = 'exactly_lib.util.parse.token'
+
+
+def token_wf(t):
+    """the invariant of the tokens a TokenStream makes (TokenStream.consume): the source text is not empty and
+    the type is QUOTED exactly when the source text starts with a quote character"""
+    return t[2] != '' and ((t[0] is TokenType.QUOTED) == (t[2][0] == '"' or t[2][0] == "'"))
+
+
+def hard_quoted(t):
+    """the documented hard-quoted form: the token's source text starts with a single quote"""
+    return t[0] is TokenType.QUOTED and t[2][0] == "'"
+
+
+ANY_TOKEN = Inst(Token, _tuple=[EnumOf(TokenType), Str, Str])
+TOKEN = Inst(Token, _tuple=[EnumOf(TokenType), Str, Str], _invariant=token_wf)
+
+M.contract(P_TOK + ':Token.is_plain', params=dict(self=ANY_TOKEN), returns=Bool, inline=True,
+           ensures={'type-is-PLAIN': lambda self, result: result == (self[0] is TokenType.PLAIN)}, raises_only=())
+M.contract(P_TOK + ':Token.is_quoted', params=dict(self=ANY_TOKEN), returns=Bool, inline=True,
+           ensures={'type-is-QUOTED': lambda self, result: result == (self[0] is TokenType.QUOTED)}, raises_only=())
+M.contract(P_TOK + ':Token.quote_type', params=dict(self=ANY_TOKEN), returns=EnumOf(QuoteType), inline=True,
+           raises={IndexError: {'when': lambda self: self[2] == ''}},
+           ensures={'decided-by-first-source-character': lambda self, result:
+           (result is QuoteType.SOFT) == (self[2][0] == '"') and (result is QuoteType.HARD) == (self[2][0] != '"')},
+           raises_only=())
+M.contract(P_TOK + ':Token.is_hard_quote_type', params=dict(self=ANY_TOKEN), returns=Bool, inline=True,
+           raises={IndexError: {'when': lambda self: self[2] == ''}},
+           ensures={'decided-by-first-source-character': lambda self, result: result == (self[2][0] == "'")},
+           raises_only=())
+
+# ------------------------------------------------------------------------------ parse_string
+
+from exactly_lib.impls.types.string_ import parse_string  # noqa: E402
+from exactly_lib.definitions.test_case import reserved_words  # noqa: E402
+from exactly_lib.section_document.element_parsers.token_stream import TokenStream  # noqa: E402
+from exactly_lib.type_val_deps.types.string_.string_sdv import StringSdv  # noqa: E402
+from exactly_lib.util.either import Either  # noqa: E402
+
+P_PS = 'exactly_lib.impls.types.string_.parse_string'
+
+
+def fragments_of_token(token, result):
+    """what the documented syntax says about the fragments of one token: no substitution inside hard quotes
+    (exactly one constant fragment with the token's characters), otherwise the fragments of the token's
+    characters according to the symbol-reference syntax"""
+    if hard_quoted(token):
+        return len(result) == 1 and (not result[0].is_symbol) and result[0].value == token[1]
+    return (rendered(result) == token[1] and well_formed(result) and separated(result)[0]
+            and single_fragment_link(result))
+
+
+M.contract(P_PS + ':parse_fragments_from_token', params=dict(token=TOKEN), returns=FRAGMENTS,
+           ensures={'fragments-of-the-token': lambda token, result: fragments_of_token(token, result)},
+           raises_only=())
+
+
+def is_single_sym_ref(fragments):
+    return len(fragments) == 1 and fragments[0].is_symbol
+
+
+M.contract(P_PS + ':_is_single_sym_ref', params=dict(fragments=FRAGMENTS), returns=Opt(Str), inline=True,
+           ensures={'name-iff-single-symbol': lambda fragments, result:
+           (result is None) == (not is_single_sym_ref(fragments))
+           and (result is None or result == fragments[0].value)},
+           raises_only=())
+
+EITHER = Inst(Either)   # only is_left()/left()/right() are used in clauses (real _Left/_Right objects in proofs)
+
+M.contract(P_PS + ':parse_sym_ref_or_fragments_from_token', params=dict(token=TOKEN),
+           ensures={
+               'hard-quoted-is-one-constant': lambda token, result:
+               (not hard_quoted(token)) or (result.is_right() and fragments_of_token(token, result.right())),
+               'plain-single-reference-is-the-name': lambda token, result:
+               hard_quoted(token) or (not result.is_left()) or (
+                       token[0] is TokenType.PLAIN and token[1] == render_ref(result.left())
+                       and valid_name(result.left())),
+               'otherwise-the-fragments': lambda token, result:
+               hard_quoted(token) or (not result.is_right()) or fragments_of_token(token, result.right()),
+           },
+           raises_only=())
+
+
+# the token stream as the parsers above the lexer see it (the lexer itself: bounded stand-in below)
+class TokenStreamI(Interface):
+    """TokenStream seen from parse_string: `is_null` tells whether there is a head token, `consume()` returns
+    the head (a token satisfying the invariant token_wf -- established by TokenStream.consume, which builds
+    every token as Token(QUOTED if source[0] is a quote else PLAIN, string, source)) and moves on."""
+    target_class = TokenStream
+    attrs = {'is_null': Bool, 'head': Opt(TOKEN)}
+    invariant = staticmethod(lambda self: self.is_null == (self.head is None))
+    methods = {
+        'consume': Method(model=lambda interp, self, args, kwargs: _consume_model(interp, self)),
+    }
+
+
+def _consume_model(interp, ts):
+    head = interp.getattr(ts, 'head')
+    interp.st.emit('consume', ts, head)
+    ts._pv_attrs.pop('head', None)
+    ts._pv_attrs.pop('is_null', None)
+    return head
+
+
+CONF = Inst(parse_string.Configuration, argument_name=Str, reference_restrictions=Any_)
+
+M.contract(P_PS + ':parse_fragments_from_tokens__w_is_plain',
+           params=dict(tokens=Iface(TokenStreamI), conf=CONF),
+           old=lambda tokens: (tokens.is_null, tokens.head),
+           raises={SingleInstructionInvalidArgumentException: {
+               'when': lambda old: old[0] or (old[1][0] is TokenType.PLAIN
+                                              and old[1][2] in reserved_words.RESERVED_TOKENS)}},
+           returns=FixedList(Bool, FRAGMENTS, as_tuple=True),
+           ensures={
+               'is-plain': lambda old, result: result[0] == (old[1][0] is TokenType.PLAIN),
+               'fragments-of-the-head-token': lambda old, result: fragments_of_token(old[1], result[1]),
+               'consumes-exactly-one-token': lambda tokens, old, trace:
+               [e[0] for e in trace] == ['consume'] and trace[0][1] is tokens,
+           },
+           raises_only=())
+
+
+# ------------------------------------------------------------------------------ fragments -> string sdv
+
+def sdv_render(x):
+    """the text a fragment sdv stands for, in the reference syntax (x: a StringFragmentSdv made by parse_string)"""
+    return x.string_constant if x.is_string_constant else render_ref(x.symbol_name)
+
+
+M.contract(P_PS + ':fragment_sdv_from_fragment', params=dict(fragment=FRAG, reference_restrictions=Any_),
+           inline=True,
+           ensures={
+               'same-kind-same-text': lambda fragment, result:
+               result.is_string_constant == (not fragment.is_symbol) and sdv_render(result) == render(fragment),
+               'restrictions-of-the-reference': lambda fragment, reference_restrictions, result:
+               (not fragment.is_symbol) or result.references[0].restrictions is reference_restrictions,
+           },
+           raises_only=())
+
+M.contract(P_PS + ':string_sdv_from_fragments',
+           params=dict(fragments=FRAGMENTS, reference_restrictions=Any_), ghosts=dict(k=Nat),
+           ensures={
+               'one-sdv-per-fragment-in-order': lambda fragments, k, result:
+               len(result.fragments) == len(fragments)
+               and (k >= len(fragments) or (
+                       result.fragments[k].is_string_constant == (not fragments[k].is_symbol)
+                       and sdv_render(result.fragments[k]) == render(fragments[k]))),
+           },
+           raises_only=())
+
+
+# ------------------------------------------------------------------------------ TokenStream above the lexer
+# The representation: `_source` (the text), `_source_io` (a StringIO over it: only its position matters here),
+# `_start_pos` (where the head token starts = `position`), `_head_token`, `_head_syntax_error_description`.
+# `consume` (shlex.get_token interleaved with tell/seek) is the bounded stand-in at the end of this module;
+# the functions below are proved with the assumed frame contract of `consume`.
+
+import io  # noqa: E402
+import shlex  # noqa: E402
+from exactly_lib.section_document.element_parsers import token_stream as _ts  # noqa: E402
+from exactly_lib.section_document.element_parsers.token_stream import LookAheadState  # noqa: E402
+
+P_TS = 'exactly_lib.section_document.element_parsers.token_stream'
+
+
+class StringIOI(Interface):
+    """io.StringIO over the source text: a position that tell() reads and seek(p) sets."""
+    target_class = io.StringIO
+    attrs = {'pos': Nat}
+    methods = {
+        'tell': Method(model=lambda interp, self, args, kwargs: interp.getattr(self, 'pos')),
+        'seek': Method(model=lambda interp, self, args, kwargs: _seek_model(interp, self, args)),
+    }
+
+
+def _seek_model(interp, sio, args):
+    from pyvc.interp import PyRaise
+    if interp.branch(interp.compare(__import__('ast').Lt, args[0], 0)):
+        raise PyRaise(ValueError('Negative seek position'))
+    interp.setattr(sio, 'pos', args[0])
+    return args[0]
+
+
+def ts_inv(self):
+    return self._start_pos <= len(self._source) and self._source_io.pos <= len(self._source)
+
+
+TS = Inst(TokenStream, _source=Str, _source_io=Iface(StringIOI), _lexer=Any_, _start_pos=Nat,
+          _head_syntax_error_description=Opt(Str), _head_token=Opt(TOKEN), _invariant=ts_inv)
+
+# shlex.shlex(stream, posix=True): the real constructor is run (on the opaque stream), so the attribute values
+# below are the defaults of the installed CPython, not a copy of them
+M.model(shlex.shlex, lambda interp, args, kwargs: shlex.shlex(*args, **kwargs))
+M.trust('shlex.shlex.__init__ (CPython): run natively to obtain the default lexer attributes')
+
+_NEW_LEXER_REPLAY = """
+from exactly_lib.section_document.element_parsers.token_stream import TokenStream
+ts = TokenStream('a#b c')
+lexer = ts._new_lexer()
+print('commenters of the lexer:', repr(lexer.commenters))
+print("TokenStream('a#b c'): head.string =", repr(ts.head.string), ' head.source_string =', repr(ts.head.source_string))
+ts.consume()
+print('after consuming the head: is_null =', ts.is_null, ' remaining_source =', repr(ts.remaining_source))
+# the documented naked string  a#b  denotes the characters a#b, and c is the next argument
+sys.exit(1 if (lexer.commenters != '' or ts.head is None or ts.head.string != 'c') else 0)
+"""
+
+M.contract(P_TS + ':TokenStream._new_lexer', params=dict(self=TS),
+           ensures={
+               'posix-mode': lambda result: result.posix is True,
+               'split-on-white-space-only': lambda result: result.whitespace_split is True,
+               'no-escape-character': lambda result: result.escape == '',
+               'both-quote-characters': lambda result: result.quotes == '\'"',
+               'white-space': lambda result: result.whitespace == ' \t\r\n',
+               # the documented syntax has no comments inside instructions: every non-white-space character of
+               # the source must belong to a token.  REFUTED on the unchanged tree ('#' stays a commenter)
+               'no-comment-characters': lambda result: result.commenters == '',
+               'reads-the-source': lambda self, result: result.instream is self._source_io,
+           },
+           replay=lambda model, rf: _NEW_LEXER_REPLAY,
+           raises_only=())
+
+
+def current_line_rest(source, pos):
+    """the text from pos up to (not including) the next line break, or to the end"""
+    i = source.find('\n', pos)
+    return source[pos:] if i == -1 else source[pos:i]
+
+
+def is_current_line_rest(source, pos, text):
+    """text == current_line_rest(source, pos), stated without `find` (for proofs)"""
+    return ('\n' not in text and pos + len(text) <= len(source) and source[pos:pos + len(text)] == text
+            and (pos + len(text) == len(source) or source[pos + len(text)] == '\n'))
+
+
+M.contract(P_TS + ':TokenStream.remaining_source', params=dict(self=TS), returns=Str, inline=True,
+           ensures={'from-the-position': lambda self, result: result == self._source[self._start_pos:]},
+           raises_only=())
+M.contract(P_TS + ':TokenStream.is_at_end', params=dict(self=TS), returns=Bool, inline=True,
+           ensures={'position-is-the-length': lambda self, result: result == (self._start_pos == len(self._source))},
+           raises_only=())
+M.contract(P_TS + ':TokenStream.remaining_part_of_current_line', params=dict(self=TS), returns=Str,
+           ensures={'up-to-the-line-break': lambda self, result:
+           is_current_line_rest(self._source, self._start_pos, result)},
+           raises_only=())
+M.contract(P_TS + ':TokenStream.look_ahead_state', params=dict(self=TS), returns=EnumOf(LookAheadState),
+           inline=True,
+           ensures={
+               'has-token-iff-head': lambda self, result:
+               (result is LookAheadState.HAS_TOKEN) == (self._head_token is not None),
+               'syntax-error-iff-description': lambda self, result:
+               (result is LookAheadState.SYNTAX_ERROR) == (self._head_token is None and
+                                                           self._head_syntax_error_description is not None and
+                                                           self._head_syntax_error_description != ''),
+           },
+           raises_only=())
+M.contract(P_TS + ':TokenStream._revert_reading_of_newline', params=dict(self=TS),
+           requires=lambda self: self._source_io.pos >= 1,
+           old=lambda self: self._source_io.pos,
+           modifies={'self._source_io.pos': Nat},
+           ensures={'steps-back-over-one-line-break': lambda self, old:
+           self._source_io.pos == (old - 1 if self._source[old - 1] == '\n' else old)},
+           raises_only=())
+
+# assumed frame of `consume` (see the bounded stand-in): the new head starts where the lexer stood
+M.contract(P_TS + ':TokenStream.consume', params=dict(self=TS), trusted=True,
+           old=lambda self: self._source_io.pos,
+           modifies={'self._start_pos': Nat, 'self._head_token': Opt(TOKEN),
+                     'self._head_syntax_error_description': Opt(Str), 'self._lexer': Any_,
+                     'self._source_io.pos': Nat},
+           raises={_ts.TokenSyntaxError: {'when': lambda self: self._head_syntax_error_description is not None
+                                          and self._head_syntax_error_description != ''}},
+           returns=Opt(TOKEN),
+           ensures={'start-pos-is-the-lexer-position': lambda self, old:
+           self._start_pos == old and old <= self._source_io.pos and self._source_io.pos <= len(self._source)})
+M.trust('TokenStream.consume: raises TokenSyntaxError exactly when a syntax error description is pending (its first statement); the next statement is `self._start_pos = self._source_io.tell()`; '
+        'the lexer only moves forward and not beyond the end (frame contract; token boundaries: bounded stand-in)')
+
+M.contract(P_TS + ':TokenStream._consume_remaining_part_of_current_line',
+           params=dict(self=TS, do_forward_to_next_line=Bool),
+           old=lambda self: (self._start_pos, self._source),
+           modifies={'self._start_pos': Nat, 'self._head_token': Opt(TOKEN),
+                     'self._head_syntax_error_description': Opt(Str), 'self._lexer': Any_,
+                     'self._source_io.pos': Nat},
+           returns=Str,
+           ensures={
+               'source-unchanged': lambda self, old: self._source == old[1],
+               'returns-the-rest-of-the-line': lambda old, result: is_current_line_rest(old[1], old[0], result),
+               'advances-to-the-line-break-or-past-it': lambda self, do_forward_to_next_line, old, result:
+               self._start_pos == (old[0] + len(result) if old[0] + len(result) == len(old[1])
+                                   else old[0] + len(result) + (1 if do_forward_to_next_line else 0)),
+           },
+           raises_only=())
